@@ -187,6 +187,9 @@ package rtpconn
 //@   assert at call RewritePacket#1 copy-geometry: len(buf) >= 12 ==> codecs.haspid(arg_data) == codecs.haspid(buf)
 //@   assert at call RewritePacket#1 copy-geometry2: len(buf) >= 12 && codecs.haspid(buf) ==> codecs.vm(arg_data) == codecs.vm(buf) && codecs.pid7(arg_data) == codecs.pid7(buf)
 //@        && (codecs.vm(buf) ==> codecs.pid15(arg_data) == codecs.pid15(buf))
+//@   -- C02: the marker bit is only ever set, and only on the last packet of a frame of the highest spatial layer being forwarded
+//@   assert at call RewritePacket#1 marker-top: arg_setMarker ==> flags.End && !flags.Marker && flags.Sid == layer.sid
+//@   assert at call RewritePacket#1 marker-top-word: arg_setMarker ==> flags.Sid <= wmaxSid(lw(down))
 //@   ensures map-wf: !held(down.packetmap.mu) && packetmap.wf(&down.packetmap)
 //@   -- C04: the selection never exceeds the highest layers seen (for all interleavings: rely/guarantee on the word)
 //@   ensures inv: invw(lw(down))
@@ -343,13 +346,28 @@ package rtpconn
 //@   modifies *
 //@   ensures keeps: keeps(c)
 //@   ensures keeps-perms: keepsperms(c)
+//@ -- C12: an "ice" message naming no connection is refused, not handed to a nil connection (the body is verified for safety;
+//@ -- what it leaves untouched stays assumed: the ICE agent is pion's)
 //@ func gotICE
-//@   trusted
-//@   why webclient.go: adds an ICE candidate to a connection of c
+//@   safe
+//@   props C12
 //@   requires nonnil: c != nil
 //@   modifies *
-//@   ensures keeps: keeps(c)
-//@   ensures keeps-perms: keepsperms(c)
+//@   trusts keeps: keeps(c)
+//@   trusts keeps-perms: keepsperms(c)
+//@ func getConn
+//@   safe
+//@   props C12
+//@   requires nonnil: c != nil
+//@   modifies *
+//@   -- the interface value is nil or holds a real connection (never a nil pointer wrapped in an interface)
+//@   ensures real: result != nil ==> ref(result) != 0
+//@   trusts keeps: keeps(c)
+//@   trusts keeps-perms: keepsperms(c)
+//@ iface rtpconn.iceConnection.addICECandidate
+//@   why rtpconn.go: both implementations (up and down connection) dereference the receiver at once to reach its peer connection
+//@   requires receiver: ref(self) != 0
+//@   modifies *
 //@ func negotiate
 //@   trusted
 //@   why webclient.go: sends an offer for a down connection of c
@@ -758,3 +776,26 @@ package rtpconn
 //@   -- and forces the wanted spatial layer to 0
 //@   assert at call setLayerInfo limit: arg_info.limitSid == limitSid && (limitSid ==> arg_info.wantedSid == 0)
 //@        && arg_info.sid == callresult("getLayerInfo", 1).sid && arg_info.tid == callresult("getLayerInfo", 1).tid
+//@   -- C04: when the closure is done every track of the connection carries the request
+//@   invariant loop 1 same-tracks: same(conn.tracks, old(conn.tracks))
+//@   invariant loop 1 installed: forall k int :: 0 <= k && k <= rangeindex ==> installed(old(conn.tracks)[k], limitSid)
+//@   ensures installed: forall k int :: 0 <= k && k < len(conn.tracks) ==> installed(conn.tracks[k], limitSid)
+//@
+//@ spec installed(t *rtpDownTrack, limitSid bool) bool = wlimitSid(lw(t)) == limitSid && (limitSid ==> wwantedSid(lw(t)) == 0)
+//@
+//@ -- C04: a request for low quality reaches every track of the connection whenever the set of tracks was computed, also when it did
+//@ -- not change (the closure above is deferred before the no-change return)
+//@ global track-error-set: errUnexpectedTrackType != nil
+//@
+//@ func replaceTracks
+//@   props C04
+//@   requires nonnil: conn != nil && !held(conn.mu)
+//@   assume tracks: forall k int :: 0 <= k && k < len(conn.tracks) ==> conn.tracks[k] != nil
+//@   modifies *
+//@   invariant loop 1 locked: conn != nil && held(conn.mu)
+//@   invariant loop 2 locked: conn != nil && held(conn.mu)
+//@   invariant loop 3 locked: conn != nil && held(conn.mu)
+//@   invariant loop 4 locked: conn != nil && held(conn.mu)
+//@   invariant loop 5 locked: conn != nil && held(conn.mu)
+//@   invariant loop 6 locked: conn != nil && held(conn.mu)
+//@   ensures installed: isnil(result1) ==> (forall k int :: 0 <= k && k < len(conn.tracks) ==> installed(conn.tracks[k], limitSid))
